@@ -6,6 +6,7 @@
 // Each mutated file is opened with the reader of its kind and every array / vector / step is read.
 // Oracle: the process (see c20_deck.cpp).
 #include "common/vh.hpp"
+#include "common/ecl_ref_codec.hpp"
 #include <opm/io/eclipse/EclFile.hpp>
 #include <opm/io/eclipse/EclOutput.hpp>
 #include <opm/io/eclipse/ERst.hpp>
@@ -49,6 +50,71 @@ static std::vector<size_t> headerOffsets(const std::string& d) {
         }
     }
     return v;
+}
+
+// Structure-preserving mutation: the seed is decoded into its arrays, the LIST of arrays is edited (an array resized - also to no
+// elements -, removed, duplicated, moved, renamed to a name the readers look for, a new array with such a name inserted, integer
+// elements replaced by hostile values) and the list is encoded again.  The result is a WELL-FORMED file whose content is odd: it gets
+// past the record layer and meets the code that indexes INTEHEAD / DIMENS / STARTDAT / SEQNUM / NUMLX ... by position.
+// Returns an empty string when the seed cannot be decoded.
+static std::string mutateArrays(const Src& s, Rng& rng, std::vector<std::string>& ops) {
+    std::vector<eref::Array> arr; std::vector<eref::Entry> ix; std::string err;
+    const bool okDec = s.formatted ? eref::decode_formatted(s.data, arr, ix, err) : eref::decode_unformatted(s.data, arr, ix, err);
+    if (!okDec || arr.empty()) return std::string();
+    struct Known { const char* name; eref::Type type; };
+    static const Known KNOWN[] = {
+        {"SEQNUM", eref::INTE}, {"INTEHEAD", eref::INTE}, {"LOGIHEAD", eref::LOGI}, {"DOUBHEAD", eref::DOUB}, {"LGRNAMES", eref::CHAR}, {"LGR", eref::CHAR},
+        {"ENDLGR", eref::MESS}, {"LGRS", eref::CHAR}, {"NUMLX", eref::INTE}, {"NUMLY", eref::INTE}, {"NUMLZ", eref::INTE}, {"KEYWORDS", eref::CHAR},
+        {"WGNAMES", eref::CHAR}, {"NAMES", eref::CHAR}, {"NUMS", eref::INTE}, {"UNITS", eref::CHAR}, {"DIMENS", eref::INTE}, {"STARTDAT", eref::INTE},
+        {"RESTART", eref::CHAR}, {"MINISTEP", eref::INTE}, {"PARAMS", eref::REAL}, {"SEQHDR", eref::INTE}, {"TIME", eref::REAL}, {"DATE", eref::INTE},
+        {"WELLETC", eref::CHAR}, {"FILEHEAD", eref::INTE}, {"GRIDHEAD", eref::INTE}, {"COORD", eref::REAL}, {"ZCORN", eref::REAL}, {"ACTNUM", eref::INTE},
+        {"MAPAXES", eref::REAL}, {"MAPUNITS", eref::CHAR}, {"GRIDUNIT", eref::CHAR}, {"NNCHEAD", eref::INTE}, {"NNC1", eref::INTE}, {"NNC2", eref::INTE},
+        {"HOSTNUM", eref::INTE}, {"ENDGRID", eref::INTE}, {"COORDSYS", eref::INTE}, {"RSTEP", eref::INTE}, {"TSTEP", eref::INTE}, {"START", eref::INTE},
+        {"RSTNUM", eref::INTE}, {"RSTFILE", eref::CHAR}, {"DEPTH", eref::REAL}, {"PRESSURE", eref::REAL}, {"CONIPOS", eref::INTE}, {"CONJPOS", eref::INTE},
+        {"CONKPOS", eref::INTE}, {"HOSTGRID", eref::CHAR}, {"PORV", eref::REAL}, {"TABDIMS", eref::INTE}, {"TAB", eref::DOUB}};
+    const size_t NK = sizeof KNOWN / sizeof *KNOWN;
+    auto resize = [&](eref::Array& a, size_t n) {
+        switch (a.type) {
+        case eref::INTE: a.iv.resize(n, a.iv.empty() ? 1 : a.iv.back()); break;
+        case eref::REAL: a.rv.resize(n, a.rv.empty() ? 1.0f : a.rv.back()); break;
+        case eref::DOUB: a.dv.resize(n, a.dv.empty() ? 1.0 : a.dv.back()); break;
+        case eref::LOGI: a.lv.resize(n, 0); break;
+        case eref::CHAR: case eref::C0NN: a.sv.resize(n, a.sv.empty() ? std::string("X") : a.sv.back()); break;
+        default: break;
+        }
+    };
+    const int nm = 1 + (int)rng.below(3);
+    for (int m = 0; m < nm && !arr.empty(); ++m) {
+        const size_t i = rng.below(arr.size());
+        eref::Array& a = arr[i];
+        switch (rng.below(8)) {
+        case 0: case 1: {       // resize consistently
+            const size_t n = (size_t)a.count();
+            size_t want[] = {0, 1, n > 0 ? n - 1 : 0, n + 1, n / 2, 2 * n + 1, 3};
+            resize(a, std::min<size_t>(want[rng.below(7)], 200000));
+            ops.push_back("array-resize"); break; }
+        case 2: arr.erase(arr.begin() + i); ops.push_back("array-remove"); break;
+        case 3: { eref::Array c = a; arr.insert(arr.begin() + rng.below(arr.size() + 1), c); ops.push_back("array-duplicate"); break; }
+        case 4: { size_t j = rng.below(arr.size()); std::swap(arr[i], arr[j]); ops.push_back("array-move"); break; }
+        case 5: { const Known& k = KNOWN[rng.below(NK)]; a.name = k.name; ops.push_back("array-rename"); break; }
+        case 6: {       // a new array under a name the readers look for: empty, one element, or the size of a sibling (+-1)
+            const Known& k = KNOWN[rng.below(NK)];
+            eref::Array c; c.name = k.name; c.type = k.type; c.width = 8;
+            const size_t sib = (size_t)arr[rng.below(arr.size())].count();
+            size_t want[] = {0, 1, sib, sib > 0 ? sib - 1 : 0, sib + 1};
+            resize(c, std::min<size_t>(want[rng.below(5)], 200000));
+            arr.insert(arr.begin() + rng.below(arr.size() + 1), c);
+            ops.push_back("array-insert-known-name"); break; }
+        case 7: {       // hostile integers in an INTE array (header slots are read by position)
+            if (a.type == eref::INTE && !a.iv.empty()) {
+                static const int32_t H[] = {0, -1, 1, 2147483647, -2147483647 - 1, 1000000, 65536, 13};
+                const int k = 1 + (int)rng.below(3);
+                for (int q = 0; q < k; ++q) a.iv[rng.below(std::min<size_t>(a.iv.size(), rng.chance(0.7) ? 12 : a.iv.size()))] = H[rng.below(8)];
+            }
+            ops.push_back("array-int-hostile"); break; }
+        }
+    }
+    return s.formatted ? eref::encode_formatted(arr, false) : eref::encode_unformatted(arr, false);
 }
 
 static std::string mutateBytes(const std::vector<Src>& all, const Src& s, Rng& rng, std::vector<std::string>& ops) {
@@ -241,7 +307,11 @@ int main(int argc, char** argv) {
     rep.run_cases([&](long idx, Rng& rng) {
         const Src& s = src[rng.below(src.size())];
         std::vector<std::string> ops;
-        std::string d = mutateBytes(src, s, rng, ops);
+        // half of the cases: edits of the array list (well-formed file, odd content); otherwise, or when the seed cannot be decoded
+        // by the reference codec, byte level mutation
+        std::string d;
+        if (rng.chance(0.5)) d = mutateArrays(s, rng, ops);
+        if (d.empty()) { ops.clear(); d = mutateBytes(src, s, rng, ops); }
         const std::string dir = scratch + "/case";
         fs::remove_all(dir);
         fs::create_directories(dir);
